@@ -163,6 +163,15 @@ fn scenario(ctx: &mut Ctx, rt: &tokio::runtime::Runtime, qs: &[Query], evs: &[us
             }
         }
     }
+    if with_engine && qs.len() == 1 && !evs.is_empty() {
+        // the same stream with the events spread over more than the 60 s window
+        let gap = if ctx.rng.chance(1, 2) { 20 } else { 100 };
+        match run_engine(rt, qs, &all_ids, evs, gap) {
+            Ok(r) => ctx.case(&format!("enginegap alone0 {}", gap), &r),
+            Err(e) => { eprintln!("generator error: {}", e); std::process::exit(3); }
+        }
+        ctx.count("enginegap");
+    }
     ctx.count(&format!("queries={}", qs.len()));
     ctx.count(&format!("events={}", evs.len()));
     let kl = qs.iter().map(|q| q.steps.iter().filter(|s| s.1).count()).max().unwrap_or(0);
